@@ -469,6 +469,18 @@ func (o *c12Oracle) post(i *IRCServer, idx int, e ircgen.Entry, outs []out, pan 
 	// commit the model and cross-check it against the instance
 	o.members = after
 	truth := truthMembers(i)
+	// A session that authenticated as a services link after it had joined channels as a client is
+	// outside the statement (DESIGN.md 0.5): the end of a link is not announced for its own
+	// nickname. Its own membership is not compared, in either direction.
+	for id := range o.everLink {
+		k := fmt.Sprintf("c:%d", id)
+		for _, set := range o.members {
+			delete(set, k)
+		}
+		for _, set := range truth {
+			delete(set, k)
+		}
+	}
 	if d := diffMembers(o.members, truth); d != "" {
 		sig := "membership-model-disagrees/after:" + entryClass(e)
 		if !o.rec.Known(sig) {
